@@ -71,10 +71,11 @@ PROPS["C05"] = dict(level="proof", bounded=[dict(name="c05_runtime", script="har
           + [U(PIM + ["contracts.rvi"], f"{PI}.solve", timeout_ms=20000, ignore=["*eval_converged_when_policy_declared_stable"])],
     lean=["eval_bound", "eval_bound_threshold"], assumptions=SOLVER_ASSUME)
 SAM = ["contracts.value_iteration", "contracts.semi_async"]
+SA_KERNELS = [U(SAM, f"{SA}.{m}") for m in ("_get_value_next_state", "_calculate_updated_state_action_value", "_calculate_updated_value", "_calculate_updated_value_state_batch")]
 PROPS["C06"] = dict(level="proof", bounded=[dict(name="c06_runtime", script="harness_solvers.py", args=["--prop", "c06"], wall_s=300)],
     units=[U(SAM, f"{SA}._calculate_updated_value_scan_state_batches", timeout_ms=30000), U(SAM, f"{SA}._shuffle_states"), U(SAM, f"{SA}._reorder_values"),
            U(SAM + ["contracts.vi_solve"], f"{SA}._update_values", timeout_ms=20000), U(SAM + ["contracts.vi_solve"], f"{SA}._iteration_step", timeout_ms=20000),
-           U(SAM + ["contracts.vi_solve"], f"{SA}.solve", timeout_ms=20000), U(SAM + ["contracts.vi_solve"], f"{SA}._setup_config")],
+           U(SAM + ["contracts.vi_solve"], f"{SA}.solve", timeout_ms=20000), U(SAM + ["contracts.vi_solve"], f"{SA}._setup_config")] + SA_KERNELS,
     lean=["gs_fixed_point", "gs_fixed_converse", "perm_argsort_inv"], assumptions=SOLVER_ASSUME)
 PVM = V1 + ["contracts.periodic"]
 PROPS["C07"] = dict(level="proof", bounded=[dict(name="c07_runtime", script="harness_solvers.py", args=["--prop", "c07"], wall_s=300)],
@@ -167,6 +168,8 @@ PROPS["C03"] = dict(level="proof",
     units=[U(BI, f"{VI}._update_values", tag="rel", timeout_ms=30000), U(BI, f"{VI}._extract_policy", tag="rel", timeout_ms=30000), U(BI, f"{SOLV}._initialize_values", tag="rel", timeout_ms=30000),
            U(BI, f"{PI}._calculate_policy_values", tag="rel", timeout_ms=30000)]
         + PROPS["C18"]["units"]
+        # the relational obligations see callees through their contracts, so every kernel between them and the code carries its own obligations here
+        + C02_UNITS + [U(PIM, f"{PI}._calculate_policy_value_state_batch"), U(PIM, f"{PI}._calculate_policy_values"), U(RVM, f"{SOLV}._initialize_values")]
         + [U(SAM, f"{SA}._calculate_updated_value_scan_state_batches", timeout_ms=30000), U(SAM + ["contracts.vi_solve"], f"{SA}._update_values", timeout_ms=20000)],
     lean=["gs_new_value_near", "gs_fixed_point", "contraction_to_fixed_bound", "singh_yee", "ravel3_inj", "ravel3_surj"],
     bounded=[dict(name="c03_multidevice", script="harness_devices.py", wall_s=900)],
@@ -203,6 +206,21 @@ PROPS["C01"] = dict(level="proof",
     assumptions=SOLVER_ASSUME + ["MDP theory cited, not proved: the optimal value is the fixed point of the Bellman operator T, the exact value of a stationary policy d is the fixed point of T_d (Puterman Thm 6.2.5 / 6.1.1); the Lean theorems are stated for any fixed points",
         "the correspondence between a Lean hypothesis and the code obligation named in coverage.lean.links is established by reading: both are stated over the same spec functions Q, B, G, B_pi (the Lean side re-declares them)",
         "WF-prob (probabilities non-negative, summing to one) is a hypothesis on the problem, discharged for the shipped problems under C13"])
+
+# Modularity: a caller sees a callee only through its contract, so a property's unit list carries the contract of EVERY function between
+# the property's statement and the code (a change inside a kernel is noticed by the kernel's own obligations).
+def _extend(pid, extra):
+    have = {u.get("id") for u in PROPS[pid]["units"]}
+    PROPS[pid]["units"] = PROPS[pid]["units"] + [u for u in extra if u.get("id") not in have]
+PI_KERNELS = [U(PIM, f"{PI}._calculate_policy_value_state_batch"), U(PIM, f"{PI}._calculate_policy_values")]
+UNBATCH = PROPS["C18"]["units"][2:3]
+_extend("C01", C02_UNITS + SA_KERNELS + PI_KERNELS + UNBATCH)
+_extend("C04", C02_UNITS + UNBATCH)
+_extend("C05", C02_UNITS + UNBATCH)
+_extend("C07", C02_UNITS + UNBATCH)
+_extend("C08", C02_UNITS + SA_KERNELS + PI_KERNELS + UNBATCH + [U(SAM, f"{SA}._calculate_updated_value_scan_state_batches", timeout_ms=30000), U(SAM + ["contracts.vi_solve"], f"{SA}._update_values", timeout_ms=20000)])
+_extend("C06", UNBATCH)
+_extend("C03", SA_KERNELS)
 
 HOOK_COMMITS = []
 NOT_APPLICABLE = {
